@@ -64,10 +64,16 @@ func (o Op) String() string {
 		return fmt.Sprintf("h%d.writestring(%s)", o.H, strconv.Quote(o.C))
 	case "create", "readlink", "lstat":
 		return o.K + " " + o.P
+	case "rebuild":
+		return "REBUILD-INDEX"
+	case "reopen":
+		return "REOPEN"
 	case "mkdir", "mkdirall", "remove", "removeall", "stat", "list", "read", "many":
 		return fmt.Sprintf("%s %s", o.K, o.P)
 	case "put":
 		return fmt.Sprintf("put %s %s", o.P, strconv.Quote(o.C))
+	case "putp":
+		return fmt.Sprintf("put(pattern %d) %s %s", o.N, o.P, strconv.Quote(o.C))
 	case "rename", "symlink":
 		return fmt.Sprintf("%s %s %s", o.K, o.P, o.Q)
 	case "chmod":
@@ -168,7 +174,7 @@ func ExecModel(m *model.FS, o Op) string {
 		return m.Mkdir(o.P, 0o755)
 	case "mkdirall":
 		return m.MkdirAll(o.P, 0o755)
-	case "put":
+	case "put", "putp":
 		return m.Put(o.P, Content(o.C), 0o666)
 	case "remove":
 		return m.Remove(o.P)
@@ -242,6 +248,8 @@ func ExecModel(m *model.FS, o Op) string {
 			}
 		}
 		return ""
+	case "rebuild", "reopen":
+		return ""
 	case "stat", "read", "list":
 		p := model.Clean(o.P)
 		n, ok := m.N[p]
@@ -281,6 +289,41 @@ func ExecImpl(s *rig.Stack, o Op) error {
 				_ = f.Close()
 				return fmt.Errorf("short write %d/%d", n, len(data))
 			}
+		}
+		return f.Close()
+	case "putp":
+		// the same final content as put, produced by a multi-step write pattern (N selects it)
+		f, err := fsys.OpenFile(o.P, os.O_RDWR|os.O_CREATE|os.O_TRUNC, 0o666)
+		if err != nil {
+			return err
+		}
+		data := Content(o.C)
+		a, b := data[:len(data)/3], data[len(data)/3:]
+		var werr error
+		switch o.N {
+		case 1: // Write; Sync; Write
+			if _, werr = f.Write(a); werr == nil {
+				if werr = f.Sync(); werr == nil {
+					_, werr = f.Write(b)
+				}
+			}
+		case 2: // WriteString in two steps
+			if _, werr = f.WriteString(string(a)); werr == nil {
+				_, werr = f.WriteString(string(b))
+			}
+		case 3: // second part first (WriteAt), then the first part
+			if len(b) > 0 {
+				_, werr = f.WriteAt(b, int64(len(a)))
+			}
+			if werr == nil && len(a) > 0 {
+				_, werr = f.WriteAt(a, 0)
+			}
+		default:
+			_, werr = f.Write(data)
+		}
+		if werr != nil {
+			_ = f.Close()
+			return fmt.Errorf("write: %w", werr)
 		}
 		return f.Close()
 	case "remove":
